@@ -786,6 +786,18 @@ def main():
                 pol = vt.Inject2(vt.RunToBlock(max_run=150), 'R', [(i, burst), (i + burst + 200, None)])
                 do(Scenario(shape, 'stop_all', pol, trace=TRACE_WEB), 'split-stop-all')
 
+    # ---- a stop request cut in two by a clock tick: the requester runs part of its way (into
+    # Machine.stop / Clock.stop), time passes, the clock thread runs until it sleeps again or
+    # ends, the requester finishes, and only then the script thread moves on — for the shapes
+    # that wait, at every (second) decision of the baseline
+    stats['three-way'] = 0
+    for shape in ('timed', 'timeofday'):
+        n = min(base_len[shape], 320)
+        for i in range(0, n, 1 if chk.thorough else 2):
+            for burst in range(3, 13 if chk.thorough else 11):
+                pol = vt.ThreeWay(vt.RunToBlock(max_run=150), 'R', i, burst, 'K')
+                do(Scenario(shape, 'request_stop' if (i // 2 + burst) % 2 else 'stop_current', pol), 'three-way')
+
     # ---- random schedules (job_control.py traced as well)
     n_rand = 400 if not chk.thorough else 8000
     import random
